@@ -81,7 +81,9 @@ class SoapBinding(Binding):
             if not options:
                 options = client.service._binding_options
 
-            if operation_obj.abstract.wsa_action:
+            if operation_obj.abstract.wsa_action and not any(
+                isinstance(plugin, wsa.WsAddressingPlugin) for plugin in client.plugins
+            ):
                 envelope, http_headers = wsa.WsAddressingPlugin().egress(
                     envelope, http_headers, operation_obj, options
                 )
